@@ -19,6 +19,18 @@ type truthOutcome struct {
 // decided three-valued over !, && and || (go/cfg keeps a condition in one piece) and only the decided edge is followed,
 // everything else both ways. Returns every place such a path can end; ok=false when atom is not on the graph.
 func outcomesUnder(info *types.Info, body *ast.BlockStmt, atom ast.Expr, val bool) (out []truthOutcome, ok bool) {
+	out, _, ok = outcomesWalk(info, body, atom, val, nil, nil, nil)
+	return out, ok
+}
+
+// outcomesAfter: the same walk started right after the statement `from`, with the boolean variables of assume taken to
+// hold the given values (the `ok` of `ok, err := f()` taken to be false). reached reports whether a path passes the node
+// avoid on the way.
+func outcomesAfter(info *types.Info, body *ast.BlockStmt, from ast.Node, assume map[types.Object]bool, avoid ast.Node) (out []truthOutcome, reached bool, ok bool) {
+	return outcomesWalk(info, body, nil, false, from, assume, avoid)
+}
+
+func outcomesWalk(info *types.Info, body *ast.BlockStmt, atom ast.Expr, val bool, from ast.Node, assume map[types.Object]bool, avoid ast.Node) (out []truthOutcome, reached bool, ok bool) {
 	g := cfg.New(body, func(*ast.CallExpr) bool { return true })
 	contains := func(root, t ast.Node) bool {
 		found := false
@@ -36,7 +48,7 @@ func outcomesUnder(info *types.Info, body *ast.BlockStmt, atom ast.Expr, val boo
 	var decide func(e ast.Expr, env map[types.Object]tv) tv
 	decide = func(e ast.Expr, env map[types.Object]tv) tv {
 		e = ast.Unparen(e)
-		if e == ast.Unparen(atom) || e == atom {
+		if atom != nil && (e == ast.Unparen(atom) || e == atom) {
 			return tv{val, true}
 		}
 		if t, ok := info.Types[e]; ok && t.Value != nil {
@@ -94,13 +106,16 @@ func outcomesUnder(info *types.Info, body *ast.BlockStmt, atom ast.Expr, val boo
 	si := -1
 	for _, b := range g.Blocks {
 		for i, n := range b.Nodes {
-			if sb == nil && contains(n, atom) {
+			if sb == nil && atom != nil && contains(n, atom) {
 				sb, si = b, i
+			}
+			if sb == nil && from != nil && (n == from || contains(n, from)) {
+				sb, si = b, i+1
 			}
 		}
 	}
 	if sb == nil {
-		return nil, false
+		return nil, false, false
 	}
 	type key struct {
 		b   *cfg.Block
@@ -137,6 +152,9 @@ func outcomesUnder(info *types.Info, body *ast.BlockStmt, atom ast.Expr, val boo
 			seen[k] = true
 		}
 		for ; i < len(b.Nodes); i++ {
+			if avoid != nil && contains(b.Nodes[i], avoid) {
+				reached = true
+			}
 			switch x := b.Nodes[i].(type) {
 			case *ast.ReturnStmt:
 				o := truthOutcome{ret: x}
@@ -229,6 +247,10 @@ func outcomesUnder(info *types.Info, body *ast.BlockStmt, atom ast.Expr, val boo
 			}
 		}
 	}
-	walk(sb, si, map[types.Object]tv{})
-	return out, true
+	env0 := map[types.Object]tv{}
+	for o, v := range assume {
+		env0[o] = tv{v, true}
+	}
+	walk(sb, si, env0)
+	return out, reached, true
 }
